@@ -1,6 +1,7 @@
 package main
 
 import (
+	dbm "github.com/cometbft/cometbft-db"
 	"bufio"
 	"encoding/hex"
 	"fmt"
@@ -70,3 +71,5 @@ var replayers = map[string]func(s *Stream, lines []string){
 		}
 	},
 }
+
+func memDB() dbm.DB { return dbm.NewMemDB() }
